@@ -124,6 +124,11 @@ def programs(tier):
             for c0 in ('call', 'waito'):
                 for s in ('GA', 'GB', 'GC', 'GD'):
                     yield (c0, s), 2, rev, tp
+        # many callers in flight at once (each with its own callee instance and result)
+        for nroots in ((12, 40) if tier == 'quick' else (12, 40, 150)):
+            for prog in (('call', 'G2'), ('waito', 'GA'), ('call2', 'XG'), ('call', 'call', 'GB'), ('callwait', 'GD'), ('cally0', 'R0')):
+                yield prog, nroots, rev, None
+            yield ('call', 'S3'), nroots, rev, (1, 9, 2, 0)
         # one root calls, the other waits by name for an event of the same name; callees of different duration per instance
         for c0 in ('callwait', 'waitcall'):
             for s in ('GA', 'GB', 'GC', 'GD', 'R', 'G2', 'XG'):
@@ -162,7 +167,7 @@ def execute(program):
             w.fire('e0', {'success': True, 'complete': True})
     ghost.World.observe_names = ['e0_success', 'e0_complete', 'exception']
     try:
-        w = ghost.RunWorld(build(program), script=[None, go], horizon=70)
+        w = ghost.RunWorld(build(program), script=[None, go], horizon=70 + 4 * nroots)
     finally:
         ghost.World.observe_names = None
     w.value_by_eid = True
@@ -330,7 +335,7 @@ def run(tier, seed, workers):
     if st.executions != total:
         st.selfcheck_errors.append('enumeration: %d of %d' % (st.executions, total))
     st.states = len(st.outcomes)
-    st.bounds = {'programs': total, 'call_depth': 2 if tier == 'quick' else 3, 'roots_in_flight': 2, 'timeouts': [0, 1, 3],
+    st.bounds = {'programs': total, 'call_depth': 2 if tier == 'quick' else 3, 'roots_in_flight': [1, 2, 12, 40] if tier == 'quick' else [1, 2, 12, 40, 150], 'timeouts': [0, 1, 3],
                  'callee_durations': [0, 1, 2, 3, 4], 'task_orders': 2}
     for c in ('executions_resumed_with_error_flag', 'executions_resumed_by_timeout', 'programs_with_two_callers_in_flight'):
         if not st.counters[c]:
